@@ -5,7 +5,8 @@ from props.hist import prehistory
 
 ID = "C08"
 THEOREMS = [("FlatModel.Props.C01", "FC.C08.after_clear"), ("FlatModel.Props.C01", "FC.C08.sim_pushes")]
-LEAN_TARGETS = ["FlatModel.Generated.Covered"]
+THEOREMS += [("FlatModel.Props.Universe", "FC.Universe.C08_every_composition")]
+LEAN_TARGETS = ["FlatModel.Generated.Covered", "FlatModel.Generated.CoveredUniverse"]
 PROFILES = {"quick": ["checked"], "thorough": ["checked", "wrapping"], "search": ["checked"]}
 RULE = ("pairs (history, continuation): the continuation runs on the cleared region and on a twin Default::default(); returned "
         "indices and reads are compared step by step (impl vs impl, then vs the model); pre-histories leave dirt (collapsed last "
